@@ -155,6 +155,9 @@ def run(ctx):
                    required=False)
 
     # ---- recursion threading ---------------------------------------------------------------
+    from ..rules import r_sparse_safe
+    ctx.rule("R-KIND", "a possibly sparse operand is indexed only on paths where it has been made dense")
+    r_sparse_safe(ctx, ps, "input_mat")
     rec = calls_from(m, ps, "permute_systems.permute_systems")
     if len(rec) < 2:
         ctx.ob("R-THREAD", ps, "two recursive index-vector calls", None if not rec else False,
